@@ -29,6 +29,7 @@ import (
 	"bytes"
 	"encoding/binary"
 	"encoding/hex"
+	"encoding/json"
 	"fmt"
 	"io"
 	"os"
@@ -115,7 +116,21 @@ type pkt struct {
 }
 
 func mkPkt(ch byte, raw []byte, note string) pkt {
-	return pkt{Ch: ch, Hex: hex.EncodeToString(raw), Note: note, raw: raw}
+	return pkt{Ch: ch, Note: note, raw: raw}
+}
+
+// MarshalJSON renders the bytes as hex only when a case is written out (cases
+// may hold megabytes of fragments).
+func (p pkt) MarshalJSON() ([]byte, error) {
+	h := p.Hex
+	if h == "" && p.raw != nil {
+		h = hex.EncodeToString(p.raw)
+	}
+	return json.Marshal(struct {
+		Ch   byte   `json:"ch"`
+		Hex  string `json:"hex"`
+		Note string `json:"note,omitempty"`
+	}{p.Ch, h, p.Note})
 }
 
 func (p *pkt) bytes() []byte {
@@ -127,20 +142,25 @@ func (p *pkt) bytes() []byte {
 
 // caseSpec is everything needed to re-run one case.
 type caseSpec struct {
-	Codec     string `json:"codec"` // H264 | H265
-	Audio     bool   `json:"audio"`
-	CacheGop  bool   `json:"cache_gop"`
-	NoSprop   bool   `json:"sdp_without_parameter_sets,omitempty"`
-	BadAac    bool   `json:"sdp_aac_config_undecodable,omitempty"` // config=00: the TS AAC packetizer has no ADTS template
-	SDP       string `json:"sdp,omitempty"`                        // overrides the built SDP (FuzzSdp)
-	Class     string `json:"class"`
-	Prefix    []pkt  `json:"prefix"`
-	Pos       int    `json:"hostile_before_prefix_index"`
-	Hostile   []pkt  `json:"hostile"`
-	ProbeTS   uint32 `json:"probe_first_video_timestamp"`
-	ProbeK    int    `json:"probe_access_units"`
-	HLSJump   string `json:"presentation_timeline_jump,omitempty"`
-	HLSWaitMs int    `json:"hls_wait_ms,omitempty"` // 0 = the default bound
+	Codec    string `json:"codec"` // H264 | H265
+	Audio    bool   `json:"audio"`
+	CacheGop bool   `json:"cache_gop"`
+	NoSprop  bool   `json:"sdp_without_parameter_sets,omitempty"`
+	BadAac   bool   `json:"sdp_aac_config_undecodable,omitempty"` // config=00: the TS AAC packetizer has no ADTS template
+	SDP      string `json:"sdp,omitempty"`                        // overrides the built SDP (FuzzSdp)
+	Class    string `json:"class"`
+	Prefix   []pkt  `json:"prefix"`
+	Pos      int    `json:"hostile_before_prefix_index"`
+	Hostile  []pkt  `json:"hostile"`
+	ProbeTS  uint32 `json:"probe_first_video_timestamp"`
+	ProbeK   int    `json:"probe_access_units"`
+	HLSJump  string `json:"presentation_timeline_jump,omitempty"`
+	// ProbeRot rotates the probe's packetisations: unit j is carried as kind
+	// (j+ProbeRot)%3 (0 aggregate with parameter sets, 1 single NAL unit, 2 three
+	// fragments), so that the first probe packet can be a start fragment (2), a
+	// single NAL unit (1) or an aggregate (0).
+	ProbeRot  int `json:"probe_rotation,omitempty"`
+	HLSWaitMs int `json:"hls_wait_ms,omitempty"` // 0 = the default bound
 	// SettleMs lets the converter goroutines work off the hostile packets before
 	// the next packet is published (at most this long; ends early once a converter
 	// has logged a recovered panic). It only varies the schedule, it is no oracle.
@@ -200,6 +220,7 @@ func newTag() []byte {
 }
 
 type probeAU struct {
+	fragmented bool // the key picture is carried as three fragments
 	vtag, atag []byte
 	pkts       []*rtp.Packet // in publish order, video then audio
 }
@@ -212,9 +233,14 @@ const probeStep = 54000 // 0.6 s at 90 kHz: two intervals close a 1-second HLS f
 // (RFC 6184 §5.7.1 / RFC 7798 §4.4.2); 1: single NAL unit packet; 2: three
 // fragments (RFC 6184 §5.8 / RFC 7798 §4.4.3).
 func buildProbe(codec esgen.Codec, audio bool, k int, ts0 uint32, vseq, aseq uint16) []probeAU {
+	return buildProbeRot(codec, audio, k, ts0, vseq, aseq, 0)
+}
+
+// buildProbeRot is buildProbe with the packetisation of unit j chosen by (j+rot)%3.
+func buildProbeRot(codec esgen.Codec, audio bool, k int, ts0 uint32, vseq, aseq uint16, rot int) []probeAU {
 	var out []probeAU
 	for j := 0; j < k; j++ {
-		au := probeAU{vtag: newTag()}
+		au := probeAU{vtag: newTag(), fragmented: (j+rot)%3 == 2}
 		var nal []byte
 		if codec == esgen.H264 {
 			nal = []byte{0x65} // nal_ref_idc 3, type 5 (IDR)
@@ -226,7 +252,7 @@ func buildProbe(codec esgen.Codec, audio bool, k int, ts0 uint32, vseq, aseq uin
 			nal = append(nal, 0x80|byte(i&0x3f))
 		}
 		var payloads [][]byte
-		switch j % 3 {
+		switch (j + rot) % 3 {
 		case 0:
 			if codec == esgen.H264 {
 				payloads = [][]byte{rtppack.H264StapA([][]byte{esgen.RealH264SPS, esgen.RealH264PPS, nal})}
@@ -523,8 +549,8 @@ func runCase(c *caseSpec, inject bool) *result {
 		}
 	}
 	var vseq, aseq uint16 = 20000, 30000
-	pa := buildProbe(c.codec(), c.Audio, k, c.ProbeTS, vseq, aseq)
-	pb := buildProbe(c.codec(), c.Audio, k, c.ProbeTS, vseq, aseq)
+	pa := buildProbeRot(c.codec(), c.Audio, k, c.ProbeTS, vseq, aseq, c.ProbeRot)
+	pb := buildProbeRot(c.codec(), c.Audio, k, c.ProbeTS, vseq, aseq, c.ProbeRot)
 
 	done := make(chan struct{})
 	go func() {
@@ -674,7 +700,23 @@ func continuation(r *rig, probe []probeAU, hasFLV, hasHLS bool, hlsBound time.Du
 		if flvMiss != "" && hlsBound > time.Second {
 			hlsBound = time.Second // the frames did not even reach the FLV side: do not wait long again
 		}
+		// With six probe units 0.6 s apart and 1-second fragments, each of the first
+		// three units lies in a segment that has been cut by the time the sixth unit
+		// has arrived; one of them is the first FRAGMENTED key picture, and that one
+		// is demanded (a well-formed fragmented IDR must still reach HLS). Shorter
+		// probes: any unit.
+		var must []byte
+		if len(probe) >= 6 {
+			for _, au := range probe[:3] {
+				if au.fragmented {
+					must = au.vtag
+				}
+			}
+		}
 		ok := mediah.WaitFor(hlsBound, func() bool {
+			if must != nil {
+				return r.hlsHas(must)
+			}
 			for _, au := range probe {
 				if r.hlsHas(au.vtag) {
 					return true
@@ -683,7 +725,11 @@ func continuation(r *rig, probe []probeAU, hasFLV, hasHLS bool, hlsBound time.Du
 			return false
 		})
 		if !ok {
-			hlsMiss = fmt.Sprintf("HLS: no segment served by the playlist holds any of the %d probe key frames within %v", len(probe), hlsBound)
+			what := fmt.Sprintf("any of the %d probe key frames", len(probe))
+			if must != nil {
+				what = "the first fragmented probe key frame"
+			}
+			hlsMiss = fmt.Sprintf("HLS: no segment served by the playlist holds %s within %v", what, hlsBound)
 		}
 	}
 	return
